@@ -218,7 +218,7 @@ def reflection(ctx, rng, idx):
         if not tol < 1e-3:
             ctx.skip("implicit:ill-conditioned-system")
             return
-    ctx.close(cls + ":time", abs(e1.time - e2.time) / (abs(e1.time) + 1e-300), tol if implicit else 1e-12, "reflection/solve-time-differs", {"t": e1.time, "t mirror": e2.time}, cls=cls)
+    ctx.close(cls + ":time", abs(e1.time - e2.time) / (abs(e1.time) + 1e-300), tol, "reflection/solve-time-differs", {"t": e1.time, "t mirror": e2.time}, cls=cls)
     for i in range(model.neq):
         sc = max(np.max(np.abs(f.data[i])), np.max(np.abs(e1.data[i]))) + 1e-300
         if i in odd_components(spec.mname):      # momentum-like: scale by density * wave speed
@@ -293,7 +293,7 @@ def units(ctx, rng, idx):
     else:
         cls = "units:implicit" if implicit else "units:tolerance"
         tol = itol if implicit else (1e-7 if reg else 1e-10)
-        ctx.close(cls + ":time", abs(e1.time - t2) / (abs(e1.time) + 1e-300), tol if implicit else 1e-12, "units/solve-time-not-rescaled", {"t": e1.time, "t twin / scale": t2}, cls=cls)
+        ctx.close(cls + ":time", abs(e1.time - t2) / (abs(e1.time) + 1e-300), tol, "units/solve-time-not-rescaled", {"t": e1.time, "t twin / scale": t2}, cls=cls)
         for i in range(model.neq):
             sc = max(np.max(np.abs(f.data[i])), np.max(np.abs(e1.data[i]))) + 1e-300
             if i in odd_components(spec.mname):
